@@ -523,3 +523,63 @@ theorem putT_dict_key (kvs : List (String × PyVal)) (k : String) (x : PyVal) (h
   simp [putT, put, modAt, item, hc, setItem]
 
 end Rbacx.PyC
+
+/-! ### `apply_obligations`: the loops over the specs and over their paths -/
+
+namespace Rbacx.PyC
+open PyVal (lookup)
+open Rbacx.Redact
+
+/-- `for path in <fields>: _set_by_path(out, path, v)`: any emitted body that is `setByPath` on `str` entries folds to `applyWrites` -/
+theorem forState_paths (body : PyVal → PyVal → Option PyVal) (v : PyVal)
+    (hbody : ∀ (s : String) (st : PyVal), body (.str s) st = some (setByPath st s v)) (ps : List PyVal)
+    (hstr : ps.all PyVal.isStr = true) (st : PyVal) :
+    forState ps st body = some (applyWrites st (ps.filterMap fun p => (pathStr p).map fun s => (s, v))) := by
+  induction ps generalizing st with
+  | nil => rfl
+  | cons p rest ih =>
+    simp only [List.all_cons, Bool.and_eq_true] at hstr
+    obtain ⟨h1, h2⟩ := hstr
+    cases p <;> simp [PyVal.isStr] at h1
+    case str s =>
+      simp only [forState, hbody, Option.bind_some, ih h2, List.filterMap_cons, pathStr, Option.map_some, applyWrites,
+        List.foldl_cons]
+
+/-- `for ob in obligations or []: …`: any emitted body that performs the writes `specWrites` lists, for every documented spec, runs
+    through the model's `applySpecs` — and nothing raises -/
+theorem forState_specs (body : PyVal → PyVal → Option PyVal)
+    (hbody : ∀ (ob st : PyVal), plainSpec ob = true → ∃ ws, specWrites ob = some ws ∧ body ob st = some (applyWrites st ws))
+    (specs : List PyVal) (h : specs.all plainSpec = true) (st : PyVal) :
+    forState specs st body = some (applySpecs st specs).1 ∧ (applySpecs st specs).2 = false := by
+  induction specs generalizing st with
+  | nil => exact ⟨rfl, rfl⟩
+  | cons ob rest ih =>
+    simp only [List.all_cons, Bool.and_eq_true] at h
+    obtain ⟨ws, hws, hb⟩ := hbody ob st h.1
+    simp only [forState, hb, Option.bind_some, applySpecs, hws]
+    exact ih h.2 _
+
+/-- `ob.get("fields", []) or []` of a documented spec: the list `fieldsOf` gives, all `str` -/
+theorem fields_plain (kvs : List (String × PyVal)) (h : plainSpec (.dict kvs) = true) :
+    ∃ ps, fieldsOf kvs = some ps ∧ ps.all PyVal.isStr = true ∧
+      Py.iter (PyVal.por (Py.getD (.dict kvs) "fields" (.list [])) (.list [])) = ps := by
+  simp only [plainSpec] at h
+  simp only [fieldsOf, Py.getD]
+  cases hl : lookup "fields" kvs with
+  | none => exact ⟨[], rfl, rfl, rfl⟩
+  | some f =>
+    simp only [hl, Bool.or_eq_true, Bool.not_eq_true'] at h
+    by_cases ht : f.truthy = true
+    · have hx : ∃ xs, f = .list xs ∧ xs.all PyVal.isStr = true := by
+        rcases h with h | h
+        · simp [ht] at h
+        · cases f <;> simp at h
+          exact ⟨_, rfl, by simpa using h⟩
+      obtain ⟨xs, rfl, hxs⟩ := hx
+      exact ⟨xs, by simp [ht], hxs, by simp [PyVal.por, ht, Py.iter]⟩
+    · have hf : f.truthy = false := by simpa using ht
+      exact ⟨[], by simp [hf], rfl, by simp [PyVal.por, hf, Py.iter]⟩
+
+theorem applyWrites_nil (st : PyVal) : applyWrites st [] = st := rfl
+
+end Rbacx.PyC
